@@ -168,6 +168,9 @@ func match(p, d interface{}, th B) []B {
 		for _, k := range keys {
 			dv, have := dm[k]
 			if !have {
+				if ov, ok := pv[k].(string); ok && strings.HasPrefix(ov, "??") {
+					continue // the matcher's optional variable: the key may be absent (then nothing is bound)
+				}
 				return nil
 			}
 			var next []B
@@ -612,4 +615,26 @@ func CanonSetU(bs []B) []string {
 	}
 	sort.Strings(out)
 	return out
+}
+
+// HasOptionalVar: some map value of the pattern is the matcher's optional variable ("??name").
+func HasOptionalVar(x interface{}) bool {
+	switch v := x.(type) {
+	case map[string]interface{}:
+		for _, e := range v {
+			if s, ok := e.(string); ok && strings.HasPrefix(s, "??") {
+				return true
+			}
+			if HasOptionalVar(e) {
+				return true
+			}
+		}
+	case []interface{}:
+		for _, e := range v {
+			if HasOptionalVar(e) {
+				return true
+			}
+		}
+	}
+	return false
 }
